@@ -76,11 +76,13 @@ BOUNDS = {
              "both formalisms by a forked use_w_tilde flag; interferometer route of the factory) for all masks with H*W<=6 (>=2 unmasked) "
              "inside a masked ring; data, noise, PSF, adapt data, values symbolic.  Part B: every history of k<=2 operations + 1 "
              "observation (indices = symbolic integers forked by the explorer; repeated operations and the no-op included) on: "
-             "Visibilities (2 symbolic complex values; 18 ops, 13 observations), Array2D and Kernel2D (3x3 masks 'plus'/'all', slim and "
-             "native storage; 22 ops), Grid2D (2 unmasked pixels, slim and native storage; 21 ops), Mask2D (all 7 four-fold symmetric "
-             "3x3 masks, symbolic pixel scale; 11 ops), masked Imaging 4x4 (symbolic data/noise/origin, concrete PSF; 12 ops), and "
+             "Visibilities (2 symbolic complex values; 18 ops, 13 observations), Array2D (native storage) and Kernel2D (slim and native "
+             "storage) on 3x3 masks 'plus'/'all' (22 ops), Grid2D (2 unmasked pixels, slim and native storage; 21 ops), Mask2D (all 7 four-fold symmetric "
+             "3x3 masks, symbolic pixel scale; 11 ops), masked Imaging 4x4 with slim- and natively-stored data / noise map (symbolic data/noise/origin, concrete PSF; 14 ops, the "
+             "unmasked source dataset observed too), "
              "mapper + 2 valued mappers + inversion on 5x5 frames with 9 / 6 unmasked pixels (mapping formalism k<=2, w-tilde k<=1; "
-             "symbolic data and mapper values; 20 ops, 16 observations), and Mesh2DVoronoi / Mesh2DDelaunay on a CONCRETE perturbed 3x3 "
+             "symbolic data and mapper values; 20 ops, 16 observations; plus, in both formalisms, an inversion and a second inversion sharing "
+             "caller-owned Preloads(curvature_matrix, regularization_matrix) at k<=2), and Mesh2DVoronoi / Mesh2DDelaunay on a CONCRETE perturbed 3x3 "
              "vertex lattice with unbounded edge cells (qhull runs natively; only the history and observation indices are solver "
              "variables there; 12 / 10 ops: voronoi_pixel_areas, voronoi_pixel_areas_for_split, split_cross, areas_for_magnification on the "
              "mesh and on x.copy() / x*2).  Part C: poisson/gaussian helpers of dataset.preprocess and "
@@ -441,6 +443,21 @@ def body_ctor_graph(inp, H, W):
     unchanged("Kernel2D.normalized: source kernel")
     hx.attempt(lambda: ds.apply_noise_scaling(mask=m, noise_value=inp["vals"][0]))
     unchanged("Imaging.apply_noise_scaling: inputs")
+    # the same dataset with natively stored data / noise map (store_native=True): derivations leave the source dataset
+    # and the caller's structures unchanged
+    data_n = aa.Array2D(values=dv.copy(), mask=m, store_native=True)
+    noise_n = aa.Array2D(values=nv.copy(), mask=m, store_native=True)
+    bn = [_snap(data_n), _snap(noise_n)]
+    ds_n = _mk(aa.Imaging, data=data_n, noise_map=noise_n, psf=psf, check_noise_map=False)
+    for nm, f in (("apply_noise_scaling(noise_value)", lambda: ds_n.apply_noise_scaling(mask=m, noise_value=inp["vals"][0])),
+                  ("apply_noise_scaling(noise_value, keep data)", lambda: ds_n.apply_noise_scaling(mask=m, noise_value=inp["vals"][1], should_zero_data=False)),
+                  ("trimmed_after_convolution_from", lambda: ds_n.trimmed_after_convolution_from(kernel_shape=(3, 3))),
+                  ("apply_over_sampling", lambda: ds_n.apply_over_sampling(over_sampling=aa.OverSamplingDataset(uniform=aa.OverSamplingUniform(sub_size=2))))):
+        hx.attempt(f)
+        key = "Imaging(native-stored data, noise_map).%s: source dataset and caller structures" % nm
+        A[key] = [_snap(data_n), _snap(noise_n), _snap(ds_n.data), _snap(ds_n.noise_map)]
+        E[key] = [bn[0], bn[1], bn[0], bn[1]]
+        bn = [_snap(data_n), _snap(noise_n)]
     # mapper graph (concrete geometry from the mask; adapt data symbolic)
     grid = aa.Grid2D.from_mask(mask=m)
     mesh_grid = aa.Mesh2DRectangular.overlay_grid(shape_native=(3, 3), grid=grid)
@@ -550,7 +567,8 @@ def case_ctor_struct(ctx, H, W):
 # A level describes an object graph: build() makes a FRESH graph G (dict) from copies of the inputs; ops is a list of
 # (name, kind, fn(G)) with kind "read" (result discarded) or "derive" (binds G["d"], the derived object under
 # observation); obs is a list of (name, fn(G)) returning a comparable value.  Obligation for a history h and an
-# observation o:   o(G after h)  ==  o(G' after the derive-steps of h only)   with G' freshly built.
+# observation o:   o(G after h)  ==  o(G' after the derive-steps of h only)   with G' freshly built (derive-steps are
+# replayed only when o observes the derived object d; observations of the source side use an untouched G').
 # An observation may return Spec(actual, expected): then `expected` (an independent reference computed from the
 # object's own contents) is used instead of the fresh-graph value.
 
@@ -618,9 +636,13 @@ def body_hist(inp, level, **kw):
     a, spec = _observe(ob, G)
     if spec is None:
         G2 = build()
-        for i in hist:
-            if ops[i][1] == "derive":
-                _run_op(ops[i], G2)
+        if ob[0] == "d" or ob[0].startswith("d."):
+            # only an observation of the derived object needs the derivation steps; everything else (the source
+            # object, the objects it was built from, the caller's arrays) is compared with an untouched fresh graph,
+            # so a derivation that writes into its source is seen
+            for i in hist:
+                if ops[i][1] == "derive":
+                    _run_op(ops[i], G2)
         e, _ = _observe(ob, G2)
     else:
         e = spec
@@ -1024,7 +1046,7 @@ def _imaging_inputs(inp, H, W, KH=3, KW=3):
     return (np.asarray(inp["data"]).reshape(H, W), np.asarray(inp["noise"]).reshape(H, W), np.asarray(inp["psf"]).reshape(KH, KW))
 
 
-def level_imaging(inp, mask_id, full=False, snr=False):
+def level_imaging(inp, mask_id, full=False, snr=False, sn=0, snv=False):
     import autoarray as aa
     mk = _mask_arr(mask_id)               # the mask applied later by apply_mask / apply_noise_scaling
     H, W = mk.shape
@@ -1034,15 +1056,16 @@ def level_imaging(inp, mask_id, full=False, snr=False):
 
     def build():
         m0 = aa.Mask2D.all_false(shape_native=(H, W), pixel_scales=(1.0, 0.5), origin=(oy, ox))
-        data = aa.Array2D(values=np.array(dv, copy=True), mask=m0)
-        noise = aa.Array2D(values=np.array(nv, copy=True), mask=m0)
+        data = aa.Array2D(values=np.array(dv, copy=True), mask=m0, store_native=bool(sn))
+        noise = aa.Array2D(values=np.array(nv, copy=True), mask=m0, store_native=bool(sn))
         psf = aa.Kernel2D.no_mask(values=np.array(pv, copy=True), pixel_scales=(1.0, 0.5))
         m = aa.Mask2D(mask=mk.copy(), pixel_scales=(1.0, 0.5), origin=(oy, ox))
         m2 = np.array(mk, copy=True)
         m2[_pos(mk)[-1]] = True
         m2 = aa.Mask2D(mask=m2, pixel_scales=(1.0, 0.5), origin=(oy, ox))
-        x = _mk(lambda: aa.Imaging(data=data, noise_map=noise, psf=psf, check_noise_map=False).apply_mask(mask=m))
-        return {"data": data, "noise": noise, "psf": psf, "m": m, "m2": m2, "x": x, "d": None}
+        u = _mk(aa.Imaging, data=data, noise_map=noise, psf=psf, check_noise_map=False)      # the unmasked source dataset
+        x = _mk(lambda: u.apply_mask(mask=m))
+        return {"data": data, "noise": noise, "psf": psf, "m": m, "m2": m2, "u": u, "x": x, "d": None}
 
     reads = [("grids.uniform", lambda o: o.grids.uniform), ("grids.blurring", lambda o: o.grids.blurring),
              ("convolver", lambda o: o.convolver)]
@@ -1059,7 +1082,13 @@ def level_imaging(inp, mask_id, full=False, snr=False):
             ("d=x.trimmed_after_convolution_from((3,3))", "derive", _setd(lambda G: G["x"].trimmed_after_convolution_from(kernel_shape=(3, 3)))),
             ("d=x.apply_over_sampling", "derive", _setd(lambda G: G["x"].apply_over_sampling(
                 over_sampling=aa.OverSamplingDataset(uniform=aa.OverSamplingUniform(sub_size=2))))),
-            ("d=d.trimmed_after_convolution_from((1,3))", "derive", _setd(lambda G: G["d"].trimmed_after_convolution_from(kernel_shape=(1, 3))))]
+            ("d=d.trimmed_after_convolution_from((1,3))", "derive", _setd(lambda G: G["d"].trimmed_after_convolution_from(kernel_shape=(1, 3)))),
+            ("d=u.trimmed_after_convolution_from((3,3))", "derive", _setd(lambda G: G["u"].trimmed_after_convolution_from(kernel_shape=(3, 3)))),
+            ("d=u.apply_over_sampling", "derive", _setd(lambda G: G["u"].apply_over_sampling(
+                over_sampling=aa.OverSamplingDataset(uniform=aa.OverSamplingUniform(sub_size=2)))))]
+    if snv:       # needs np.median of the data: only in a dedicated case with concrete data
+        ops += [("d=u.apply_noise_scaling(m,signal_to_noise_value)", "derive",
+                 _setd(lambda G: G["u"].apply_noise_scaling(mask=G["m"], signal_to_noise_value=4.0)))]
     if full:
         ops += [("d=d.apply_mask(m2)", "derive", _setd(lambda G: G["d"].apply_mask(mask=G["m2"]))),
                 ("d=x.unmasked.apply_noise_scaling(m,c,keep data)", "derive",
@@ -1069,7 +1098,8 @@ def level_imaging(inp, mask_id, full=False, snr=False):
         cv = o.convolver
         return [np.array(hx.unwrap(cv.mask), dtype=bool), _val(cv.kernel)]
 
-    obs = [("inputs", lambda G: [_structure(G["data"]), _structure(G["noise"]), _structure(G["psf"]), _structure(G["m"]), _structure(G["m2"])])]
+    obs = [("inputs", lambda G: [_structure(G["data"]), _structure(G["noise"]), _structure(G["psf"]), _structure(G["m"]), _structure(G["m2"])]),
+           ("u (unmasked source dataset)", lambda G: [_structure(G["u"].data), _structure(G["u"].noise_map), _structure(G["u"].psf)])]
     for who in ("x", "d"):
         obs += [("%s.data" % who, lambda G, who=who: _structure(_get(G, who).data)),
                 ("%s.noise_map" % who, lambda G, who=who: _structure(_get(G, who).noise_map)),
@@ -1113,7 +1143,7 @@ LEVELS["imaging"] = level_imaging
 KNOWN_REGIONS["imaging"] = {"stale-cache-after-derivation": _stale_dataset_region}
 
 
-def case_hist_imaging(ctx, mask_id, k, op0=None, full=False, snr=False):
+def case_hist_imaging(ctx, mask_id, k, op0=None, full=False, snr=False, sn=0, snv=False):
     H, W = _mask_arr(mask_id).shape
     noise = V.real_array("n", (H, W))
     for e in noise.reshape(-1):
@@ -1122,7 +1152,9 @@ def case_hist_imaging(ctx, mask_id, k, op0=None, full=False, snr=False):
     # PSF is covered by case_ctor_graph and case_rng)
     psf = np.array([[0.0, 0.25, 0.0], [0.25, 1.0, 0.25], [0.0, 0.25, 0.0]])
     inputs = {"data": V.real_array("d", (H, W)), "noise": noise, "psf": psf, "origin": [V.real("oy"), V.real("ox")], "c": V.real("c")}
-    _hist_case(ctx, "imaging", inputs, {"mask_id": mask_id, "full": full, "snr": snr}, k, op0)
+    if snv:
+        inputs["data"] = 1.0 + 0.25 * ((np.arange(H * W).reshape(H, W) * 5) % 7)     # concrete data: np.median sorts it
+    _hist_case(ctx, "imaging", inputs, {"mask_id": mask_id, "full": full, "snr": snr, "sn": sn, "snv": snv}, k, op0)
 
 
 # ---------------------------------------------------------------------------------------------------- level: mapper / valued mapper / inversion
@@ -1173,7 +1205,10 @@ def _install_linalg_stub():
         abstract.csc_matrix = csc
 
 
-def level_inversion(inp, mask_id, w_tilde, full=False):
+_PRELOAD_CACHE = {}
+
+
+def level_inversion(inp, mask_id, w_tilde, full=False, preloads=0):
     import autoarray as aa
     mk = _mask_arr(mask_id)
     H, W = mk.shape
@@ -1198,15 +1233,32 @@ def level_inversion(inp, mask_id, w_tilde, full=False):
         mapper = _mk(aa.Mapper, mapper_grids=mg, over_sampler=aa.OverSamplerUniform(mask=m, sub_size=1),
                      regularization=aa.reg.Constant(coefficient=2.0))
         settings = aa.SettingsInversion(use_w_tilde=bool(w_tilde), use_positive_only_solver=False, no_regularization_add_to_curvature_diag_value=False)
-        inv = _mk(aa.Inversion, dataset=ds, linear_obj_list=[mapper], settings=settings)
+        pre, pre_src = None, {}
+        if preloads:
+            # caller-owned Preloads: arrays taken (as copies) from an independent inversion of the same concrete noise / PSF / mapper
+            key = (mask_id, bool(w_tilde))
+            if key not in _PRELOAD_CACHE:
+                inv0 = _mk(aa.Inversion, dataset=ds, linear_obj_list=[mapper], settings=settings)
+                _PRELOAD_CACHE[key] = {"curvature_matrix": np.array(shim.normalise(inv0.curvature_matrix), dtype=float),
+                                       "regularization_matrix": np.array(shim.normalise(inv0.regularization_matrix), dtype=float),
+                                       "operated_mapping_matrix": np.array(shim.normalise(inv0.operated_mapping_matrix), dtype=float),
+                                       "curvature_matrix_mapper_diag": np.array(shim.normalise(inv0.curvature_matrix), dtype=float)}
+            slots = ("curvature_matrix", "regularization_matrix") if preloads == 1 else tuple(_PRELOAD_CACHE[key])
+            if preloads >= 2 and w_tilde:
+                slots = tuple(sl for sl in slots if sl != "operated_mapping_matrix")
+            pre_src = {sl: _PRELOAD_CACHE[key][sl].copy() for sl in slots}
+            from autoarray.preloads import Preloads
+            pre = Preloads(**pre_src)
+        inv = _mk(aa.Inversion, dataset=ds, linear_obj_list=[mapper], settings=settings, **({"preloads": pre} if pre is not None else {}))
+        inv2 = _mk(aa.Inversion, dataset=ds, linear_obj_list=[mapper], settings=settings, preloads=pre) if pre is not None else None
         src_vals = np.array(vals, copy=True)
         src_pix_mask = pix_mask.copy()
         mv = _mk(aa.MapperValued, mapper=mapper, values=src_vals, mesh_pixel_mask=src_pix_mask)
         src_vals0 = np.array(vals, copy=True)
         mv0 = _mk(aa.MapperValued, mapper=mapper, values=src_vals0)
         return {"data": data, "noise": noise, "psf": psf, "m": m, "ds": ds, "grid": grid, "mesh_grid": mesh_grid, "mapper": mapper,
-                "settings": settings, "inv": inv, "mv": mv, "mv0": mv0, "src_vals": src_vals, "src_vals0": src_vals0,
-                "src_pix_mask": src_pix_mask, "d": None}
+                "settings": settings, "inv": inv, "inv2": inv2, "pre": pre, "pre_src": pre_src, "mv": mv, "mv0": mv0, "src_vals": src_vals,
+                "src_vals0": src_vals0, "src_pix_mask": src_pix_mask, "d": None}
 
     def um(o):
         u = o.unique_mappings
@@ -1244,6 +1296,20 @@ def level_inversion(inp, mask_id, w_tilde, full=False):
            ("mv.values (caller array)", lambda G: G["src_vals"])]
     for who, qs in (("mapper", q_mapper[:2]), ("inv", [q for q in q_inv if q[0] != "regularization_term"]), ("mv", q_mv[:2]), ("mv0", q_mv[:2])):
         obs += [("%s.%s" % (who, nm), lambda G, who=who, f=f: f(G[who])) for nm, f in qs]
+    if preloads:
+        # focused variant: the inversion, a second inversion sharing the caller's Preloads, and the preload arrays
+        ops = [o for o in ops if o[0] == "noop" or o[0].startswith("inv.") or o[0].startswith("ds.")]
+        q2 = [q for q in q_inv if q[0] in ("curvature_matrix", "curvature_reg_matrix", "reconstruction", "data_vector")]
+        ops += [("inv2.%s" % nm, "read", _rd("inv2", f)) for nm, f in q2]
+        obs = [o for o in obs if o[0] == "inputs" or o[0].startswith("inv.")]
+        obs += [("inv2.%s" % nm, lambda G, f=f: f(G["inv2"])) for nm, f in q2[:3]]
+
+        def obs_pre(G):
+            # the caller-owned preload arrays and the arrays held by the Preloads object; reference = the values handed in
+            names, ref = sorted(G["pre_src"]), _PRELOAD_CACHE[(mask_id, bool(w_tilde))]
+            return Spec([G["pre_src"][nm] for nm in names] + [getattr(G["pre"], nm) for nm in names], [ref[nm] for nm in names] * 2)
+
+        obs += [("preloads (caller arrays)", obs_pre)]
     return build, ops, obs
 
 
@@ -1282,11 +1348,11 @@ LEVELS["inversion"] = level_inversion
 KNOWN_REGIONS["inversion"] = {"mapper-valued-values-masked-in-place": _values_masked_region}
 
 
-def case_hist_inversion(ctx, mask_id, w_tilde, k, op0=None, full=False):
+def case_hist_inversion(ctx, mask_id, w_tilde, k, op0=None, full=False, preloads=0):
     _install_linalg_stub()
     H, W = _mask_arr(mask_id).shape
     inputs = {"data": V.real_array("d", (H, W)), "vals": V.real_array("s", (9,))}
-    _hist_case(ctx, "inversion", inputs, {"mask_id": mask_id, "w_tilde": w_tilde, "full": full}, k, op0, tol=1e-9)
+    _hist_case(ctx, "inversion", inputs, {"mask_id": mask_id, "w_tilde": w_tilde, "full": full, "preloads": preloads}, k, op0, tol=1e-9)
 
 
 # ---------------------------------------------------------------------------------------------------- level: triangulation meshes
@@ -1646,12 +1712,15 @@ def cases(tier):
     # Part B
     if q:
         out += _hist_cases("vis", {"n": 2}, 2)
-        for cls, sn, mid in (("Array2D", 0, "3x3_plus"), ("Array2D", 1, "3x3_plus"), ("Kernel2D", 0, "3x3_plus"), ("Kernel2D", 1, "3x3_all")):
+        for cls, sn, mid in (("Array2D", 1, "3x3_plus"), ("Kernel2D", 0, "3x3_plus"), ("Kernel2D", 1, "3x3_all")):
             out += _hist_cases("array", {"mask_id": mid, "cls": cls, "sn": sn}, 2)
         for sn in (0, 1):
             out += _hist_cases("grid", {"mask_id": "2x2_diag", "sn": sn}, 2)
         out += _hist_cases("mask", {"H": 3, "W": 3, "family": "sym4"}, 2)
         out += _hist_cases("imaging", {"mask_id": "4x4_inner"}, 2)
+        out += _hist_cases("imaging", {"mask_id": "4x4_inner", "sn": 1}, 2)
+        out += _hist_cases("inversion", {"mask_id": "5x5_inner_L", "w_tilde": 1, "preloads": 1}, 2)
+        out += _hist_cases("inversion", {"mask_id": "5x5_inner_L", "w_tilde": 0, "preloads": 1}, 2)
         out += _hist_cases("inversion", {"mask_id": "5x5_inner", "w_tilde": 0}, 2)
         out += _hist_cases("inversion", {"mask_id": "5x5_inner_L", "w_tilde": 1}, 1)
         for cls in ("Voronoi", "Delaunay"):
@@ -1669,10 +1738,16 @@ def cases(tier):
         out += _hist_cases("mask", {"H": 3, "W": 3, "family": "sym4", "full": True}, 2)
         out += _hist_cases("mask", {"H": 2, "W": 3, "family": "all"}, 1)
         out += _hist_cases("imaging", {"mask_id": "4x4_inner", "full": True}, 2)
+        out += _hist_cases("imaging", {"mask_id": "4x4_inner", "full": True, "sn": 1}, 2)
         out += _hist_cases("imaging", {"mask_id": "5x5_inner_L"}, 2)
+        for wt in (0, 1):
+            out += _hist_cases("inversion", {"mask_id": "5x5_inner", "w_tilde": wt, "preloads": 2}, 2)
+            out += _hist_cases("inversion", {"mask_id": "5x5_inner_L", "w_tilde": wt, "preloads": 1}, 2)
         out += _hist_cases("inversion", {"mask_id": "5x5_inner", "w_tilde": 0, "full": True}, 2)
         out += _hist_cases("inversion", {"mask_id": "5x5_inner_L", "w_tilde": 1, "full": True}, 2)
     out.append(("case_hist_imaging", {"mask_id": "4x4_inner", "k": 1, "snr": True, "op0": "x.signal_to_noise_map"}))
+    for sn in (0, 1):
+        out.append(("case_hist_imaging", {"mask_id": "4x4_inner", "k": 2, "snv": True, "sn": sn, "op0": "d=u.apply_noise_scaling(m,signal_to_noise_value)"}))
     if not q:
         out.append(("case_hist_imaging", {"mask_id": "4x4_inner", "k": 2, "snr": True, "op0": "d=x.apply_mask(m2)"}))
     return out
